@@ -11,6 +11,18 @@ def seglist(loc):
     return list(loc)
 
 
+_MODELX_ERRORS = ("DeletedObjectError", "FormulaError", "DeepReferenceError", "NoneReturnedError")
+
+
+def exc_name(e):
+    """Class name of an exception as the checks record it: the nearest built-in (or documented modelx) class in its MRO,
+    so that a more specific subclass raised by another version of the library is the same outcome."""
+    for k in type(e).__mro__:
+        if k.__module__ == "builtins" or k.__name__ in _MODELX_ERRORS or k.__module__.startswith("mxsim"):
+            return k.__name__
+    return type(e).__name__
+
+
 def library_self_check(obj=None):
     """Run modelx's own internal consistency check if this version has one.
 
@@ -136,11 +148,11 @@ class World:
             return {"st": "ok", "val": norm(val)}
         except FormulaError:
             err = mx.get_error()
-            return {"st": "rej", "exc": type(err).__name__ if err is not None else "FormulaError", "wrapped": True}
+            return {"st": "rej", "exc": exc_name(err) if err is not None else "FormulaError", "wrapped": True}
         except BaseException as e:
             if isinstance(e, (SystemExit,)):
                 raise
-            return {"st": "rej", "exc": type(e).__name__, "msg": str(e)[:200]}
+            return {"st": "rej", "exc": exc_name(e), "msg": str(e)[:200]}
 
     # editor
     def op_new_space(self, op):
